@@ -436,6 +436,28 @@ func c05Run(c *verifeng.Chooser, f *c05fix, env *verifhfs.Env, mode string, dept
 					}})
 				}
 				add("other", fmt.Sprintf("block(T%d, a different valid block)", want%c05Len+1), f.data[want%c05Len+1].Block, false, 0, false)
+				// "I don't have it": no block at all. Like every response
+				// that is not the requested block it has to be ignored
+				// (the request stays with the peer until its timeout and
+				// is then retried); it must not end the call.
+				if sentCount["notfound"] < 1 && !callers[0].tk.Done() {
+					nf := wire.NewMsgNotFound()
+					_ = nf.AddInvVect(wire.NewInvVect(req.InvList[0].Type, &f.chain[want].Hash))
+					menu = append(menu, ev{p.name + fmt.Sprintf(" sends notfound(T%d)", want), func() bool {
+						sentCount["notfound"]++
+						if !deliver(p, nf) {
+							return false
+						}
+						verifbubble.Wait()
+						if callers[0].tk.Done() {
+							r := callers[0].tk.Val.(*c05Res)
+							c.Fail("C06", "C06:call-ended-by-a-response-to-ignore",
+								"GetBlock(T%d) returned (err=%v) as soon as peer %s answered notfound: a response that is not the requested block has to be ignored and the request retried with other peers", want, r.err, p.name)
+							return false
+						}
+						return true
+					}})
+				}
 				for _, mut := range []string{"mutated-tx", "added-tx", "removed-tx", "replaced-txs", "stripped-witness", "forged-commitment"} {
 					add(mut, fmt.Sprintf("block(T%d header, %s)", want, mut), mutateBlock(f.data[want].Block, mut), false, 0, true)
 				}
@@ -453,7 +475,9 @@ func c05Run(c *verifeng.Chooser, f *c05fix, env *verifhfs.Env, mode string, dept
 		// single-flight mutex, which the bubble cannot see as blocked; it
 		// is issued once the first call has returned (cache / database /
 		// re-fetch paths).
-		if !secondCall && callers[0].tk.Done() {
+		// (GetBlock has no such mutex: there the second call may overlap
+		// the first.)
+		if !secondCall && (callers[0].tk.Done() || mode == "C06") {
 			for _, ht := range []int{target, target%c05Len + 1} {
 				ht := ht
 				menu = append(menu, ev{fmt.Sprintf("second caller asks for T%d", ht), func() bool {
